@@ -41,6 +41,11 @@ open MdIt.Inline
 #check @skipToken_calm
 #check @translate_expand
 #check @translate_same_line
+#check @text_induction
+#check @run_content_ne
+#check @erase_trailingTextPush
+#check @erase_trailingTextPop
+#check @linkRule_bounds
 #print axioms inline_rule_progress_text
 #print axioms inline_rule_progress_newline
 #print axioms inline_rule_progress_escape
@@ -82,3 +87,8 @@ open MdIt.Inline
 #print axioms translate_expand
 #print axioms translate_same_line
 #print axioms inline_rule_bounds_link
+#print axioms text_induction
+#print axioms run_content_ne
+#print axioms erase_trailingTextPush
+#print axioms erase_trailingTextPop
+#print axioms linkRule_bounds
